@@ -381,10 +381,10 @@ func c04wObligs(tier string) []Oblig {
 	widths := []int{0, 3, 5, 7}
 	precs := []int{0, 2, 6}
 	if tier == "thorough" {
-		kvs = []kv{{3, []int{0, 1, 2, 3, 4, 5, 6, 7, 12, 15, 8}}, {5, []int{0, 1, 2, 3, 4, 12, 15}}, {49, []int{0, 1, 3, 4}}, {4, []int{0, 1, 5, 6, 7}}, {9, []int{0, 5, 6, 7, 4}}, {7, []int{8, 9, 10, 4, 1, 13, 14}}, {50, []int{8, 10, 4}}, {8, []int{8, 10, 4}},
-			{0, []int{11, 6, 1, 12, 4, 0}}, {1, []int{11, 6, 1, 4, 0}}, {20, []int{0, 1, 4, 11}}, {14, []int{4, 0, 11}}, {24, []int{4, 0}}, {6, []int{16, 4, 0}}, {10, []int{4, 0, 11}}, {27, []int{4, 11, 0}}, {31, []int{4, 11, 1}}, {45, []int{0, 1, 4}}}
-		widths = []int{0, 1, 2, 3, 4, 5, 6, 7, 8}
-		precs = []int{0, 1, 2, 3, 4, 5, 6, 7}
+		kvs = []kv{{3, []int{0, 1, 2, 3, 4, 5, 6, 7, 12, 15}}, {5, []int{0, 1, 3, 4, 15}}, {49, []int{0, 1, 4}}, {4, []int{0, 1, 5}}, {9, []int{0, 5, 6, 4}}, {7, []int{8, 9, 10, 4, 13}}, {50, []int{8, 4}}, {8, []int{8, 4}},
+			{0, []int{11, 6, 1, 4, 0}}, {1, []int{11, 1, 4}}, {20, []int{0, 1, 4}}, {14, []int{4, 0}}, {24, []int{4}}, {6, []int{16, 4}}, {10, []int{4, 0}}, {27, []int{4, 11}}, {31, []int{4, 11}}, {45, []int{0, 4}}}
+		widths = []int{0, 1, 3, 4, 5, 7, 8}
+		precs = []int{0, 1, 2, 4, 5, 6}
 	}
 	for _, x := range kvs {
 		for _, v := range x.verbs {
@@ -410,7 +410,7 @@ func init() {
 		Props:  []string{"C04"},
 		Obligs: c04Obligs,
 		Bounds: func(tier string) map[string]interface{} {
-			return map[string]interface{}{"value_kinds": nFmtKinds, "directives": nDirectives, "string_leaf_bytes": "1 for the full kind x directive table, 2 (3 thorough) for 7 kinds x 12 directives", "int_leaves": "0..9999 symbolic", "runes": "all valid runes", "sprint_pairs": 40}
+			return map[string]interface{}{"value_kinds": nFmtKinds, "directives": nDirectives, "string_leaf_bytes": "1 for the full kind x directive table, 2 (3 thorough) for 7 kinds x 12 directives", "int_leaves": "0..9999 symbolic", "runes": "all valid runes", "sprint_pairs": 66, "boundary_table": "H_c04w: all 32 flag subsets x widths {-,67,69,80} (thorough {-,3,64,67,68,69,70,80,1000}) x precisions {-,2,70} (thorough {-,0,2,66,67,68,70,1000}) x 8 (80 thorough) kind/verb pairs"}
 		},
 		Goals:   []string{"marker-in-leaf"},
 		Assume:  []string{"string leaves are valid UTF-8 (the property's quantifier)", "operands that would print a machine address are skipped"},
@@ -1215,22 +1215,22 @@ func init() {
 		map[string]interface{}{"redactables": "symbolic well-formed line-safe fragments: <=1 envelope and <=2 safe runs of ASCII bytes (9 shapes)", "directives": len(c08Dirs), "containers": 15, "compositions": "8 Sprint/Sprintf/Join/JoinTo variants x 15 shape pairs"},
 		[]string{"redactables are in the class C01/C03/C10 show the library produces: well-formed, line-safe, no truncated tail; content bytes ASCII"}, stubs, []string{"%T and %p (excluded by the property)", "non-ASCII content bytes", "deeper nesting"})
 	simpleSpec("C14", c14Obligs, []string{"bare-v"},
-		map[string]interface{}{"flags": "five symbolic booleans (all 32 subsets)", "widths": "absent,0,1,7,12,1000", "precisions": "absent,0,1,5", "verbs": "symbolic ASCII letter (except T p w) and 3 multi-byte runes", "wrapper_operands": "8 (11 thorough) basic kinds"},
+		map[string]interface{}{"flags": "five symbolic booleans (all 32 subsets)", "makeformat_on_printer": "MakeFormat called by a SafeFormat method on redact's own printer, before and after a nested Print/Printf", "wrapper_operand_values": "basic kinds, reflect.Values, and 12 (49 thorough) kinds with formatting methods (nil receivers, panicking methods, errors, GoStringers)", "widths": "absent,0,1,7,12,1000", "precisions": "absent,0,1,5", "verbs": "symbolic ASCII letter (except T p w) and 3 multi-byte runes", "wrapper_operands": "8 (11 thorough) basic kinds"},
 		[]string{"the * forms reach MakeFormat as the same fmt.State as a literal width/precision"}, stubs, []string{"widths above 1000"})
 	simpleSpec("C15", c15Obligs, []string{"valid-wrap", "multiple-w"},
 		map[string]interface{}{"format_tokens": "1-2 (3 thorough) tokens from 13 (incl. %w with flags, widths, indexes)", "operand_kinds": 10, "error_text": "1 symbolic valid-UTF-8 byte"},
 		nil, stubs, []string{"longer formats"})
 	simpleSpec("C16", c16Obligs, []string{"symbolic-leaf"},
-		map[string]interface{}{"operand_kinds": "12 (22 thorough) x 3", "routes": "Sprint/Fprint/StringBuilder/Sprintfn/SafeFormat and the printf twins, empty and non-empty outer buffers", "writers": "succeeding, failing, short", "leaf": "1 arbitrary symbolic byte"},
+		map[string]interface{}{"operand_kinds": "12 (22 thorough) x 3", "extra_routes": "%w with an error operand outside HelperForErrorf; empty format with operands; StringWithoutMarkers", "routes": "Sprint/Fprint/StringBuilder/Sprintfn/SafeFormat and the printf twins, empty and non-empty outer buffers", "writers": "succeeding, failing, short", "leaf": "1 arbitrary symbolic byte"},
 		nil, stubs, []string{"longer leaves", "Print*-to-stdout variants"})
 	simpleSpec("C17", c17Obligs, []string{"hook-dispatched"},
-		map[string]interface{}{"error_kinds": 7, "positions": 9, "verbs": 9, "configurations": "no hook / hook / panicking hook", "error_text": "1 symbolic byte"},
+		map[string]interface{}{"error_kinds": 7, "positions": 13, "verbs": 9, "configurations": "no hook (compared with the standard library) / hook / panicking hook; hook installed after the error type was first printed", "same_call_predecessors": "nil-receiver Stringer, panicking Stringer, Safe(), nil-pointer Formatter before the error operand", "error_text": "1 symbolic byte"},
 		nil, stubs, []string{"deeper nesting than 2"})
 	simpleSpec("C06", c06Obligs, []string{"symbolic-under-unsafe", "script-under-unsafe"},
-		map[string]interface{}{"wrapper_nestings": "all 12 up to depth 3", "value_kinds": 21, "directives": 8, "scripts": "1-2 calls from 11 (formatter discovering the SafePrinter, and SafeFormatter; incl. redact.Fprint/Fprintf onto the printer)", "leaf": "1 symbolic valid-UTF-8 non-LF byte"},
+		map[string]interface{}{"wrapper_nestings": "all 12 up to depth 3", "value_kinds": 23, "directives": 10, "scripts": "1-2 calls from 11 (formatter discovering the SafePrinter, and SafeFormatter; incl. redact.Fprint/Fprintf onto the printer)", "leaf": "1 symbolic valid-UTF-8 non-LF byte"},
 		[]string{"unsafe renderings are LF-free (LF handling is C03/C09)"}, stubs, []string{"longer scripts"})
 	simpleSpec("C05", c05Obligs, []string{"symbolic-leaves"},
-		map[string]interface{}{"leaves": "3 per call from 9 kinds (unsafe string/int, SafeString, Safe(), SafeInt, registered type, safe-emitting SafeFormatter, SafeValue type)", "shapes": "top level, []interface{}, struct with interface fields, map, Sprint", "formats": 5, "registry": "empty / one registered type", "leaf_bytes": "2 (3 thorough) symbolic bytes each for the unsafe and the safe payload"},
+		map[string]interface{}{"registry_modes": "empty / value type registered / pointer type registered / registered after the operands were first printed", "safe_pointer": "%p of a pointer whose type is a SafeValue", "leaves": "3 per call from 17 kinds (unsafe string/int, SafeString, Safe(), SafeInt, registered type, safe-emitting SafeFormatter, SafeValue type)", "shapes": "top level, []interface{}, struct with interface fields, map, Sprint", "formats": 5, "registry": "empty / one registered type", "leaf_bytes": "2 (3 thorough) symbolic bytes each for the unsafe and the safe payload"},
 		[]string{"unsafe payloads are LF-free and valid UTF-8", "the blanked operand is rendered as one leaf"}, stubs, []string{"bad verbs (C04)", "longer payloads"})
 	register(&CheckSpec{ID: "C12", Props: []string{"C12"}, Obligs: c12Obligs, Goals: []string{"ran", "probe-ran-on-recycled-printer"},
 		Bounds: func(tier string) map[string]interface{} {
